@@ -11,6 +11,7 @@ import (
 	"path/filepath"
 	"runtime"
 	"runtime/debug"
+	"runtime/metrics"
 	"sort"
 	"sync"
 	"sync/atomic"
@@ -93,6 +94,7 @@ type Ctx struct {
 	curDesc    atomic.Value // string: what library call is in flight
 	ticks      atomic.Int64
 	heapLimit  atomic.Int64
+	caseBase   atomic.Int64
 	allowNs    atomic.Int64 // extra CPU allowance of the call in flight
 	concurrent atomic.Bool  // the work is done by goroutines other than the main one
 	mainTid    int
@@ -195,9 +197,19 @@ func (c *Ctx) currentString() string {
 // the next call (0 restores the default).
 func (c *Ctx) SetHeapBudget(bytes int64) {
 	if bytes <= 0 {
-		bytes = defaultHeapLimit
+		bytes = c.caseBase.Load() + defaultHeapLimit
 	}
 	c.heapLimit.Store(bytes)
+}
+
+// startCase re-bases the default heap ceiling on what the worker itself
+// holds when the case begins (its distinct-case set, samples, ...), so that
+// the ceiling bounds the growth caused by the case, not the harness.
+func (c *Ctx) startCase() {
+	s := []metrics.Sample{{Name: "/memory/classes/heap/objects:bytes"}}
+	metrics.Read(s)
+	c.caseBase.Store(int64(s[0].Value.Uint64()))
+	c.heapLimit.Store(c.caseBase.Load() + defaultHeapLimit)
 }
 
 // Eval counts n library executions observed by a monitor.
